@@ -9,8 +9,8 @@
 EXTENDS FilterCatalogue, TLC, Json, IOUtils, SequencesExt
 
 CONSTANTS NSlots, Recover, TheCfg
-VARIABLES k, since, status, pattern
-mvars == <<k, since, status, pattern>>
+VARIABLES k, since, status, pattern, near
+mvars == <<k, since, status, pattern, near>>
 
 (* fault patterns: at most two dropout runs of 1..3 slots, any kind, anywhere -- also in the very first slot (then the run has   *)
 (* no valid first sample to take its initial attitude from: the safety part applies, the closeness part needs a common start) *)
@@ -20,17 +20,24 @@ Kinds == FaultKinds \ {"ok"}
 Patterns == { Pat(s1, l1, k1, s2, l2, k2) : s1 \in 1..NSlots, l1 \in 1..3, k1 \in Kinds,
                                             s2 \in 2..(NSlots+1), l2 \in 0..3, k2 \in Kinds }
 
-MInit == pattern \in Patterns /\ k = 0 /\ since = Recover /\ status = "running"
+MInit == pattern \in Patterns /\ k = 0 /\ since = Recover /\ status = "running" /\ near = TRUE
 (* one slot of the run: the environment supplies the fault, the filter the outcome and closeness *)
-Slot(outcome, close) ==
+(* `held`: "skips its correction" made observable.  A filter that was close to the undisturbed run when a visible fault begins and does *)
+(* not refuse it goes on from its last estimate with the gyroscope alone (or stands still): at the end of the faulted slot it is still   *)
+(* where dead reckoning from that estimate puts it -- it has not been pulled towards whatever attitude a null sample would suggest.    *)
+(* (Judged by the harness on histories of a body at rest, with the drift a gyroscope bias allows; `near` remembers the closeness of    *)
+(* the previous slot.)                                                                                                                *)
+Slot(outcome, close, held) ==
     /\ status = "running" /\ k < NSlots
     /\ LET fk == pattern[k + 1] vis == Visible(TheCfg, fk) IN
        /\ outcome \in AllowedOutcomes(TheCfg, fk)
        /\ since' = IF vis THEN 0 ELSE since + 1
        /\ ((since' >= Recover /\ pattern[1] = "ok") => close)
+       /\ ((vis /\ near /\ pattern[1] = "ok" /\ outcome # "Rejected") => held)
        /\ status' = IF outcome = "Rejected" THEN "rejected" ELSE "running"
+    /\ near' = close
     /\ k' = k + 1 /\ UNCHANGED pattern
-MNext == \E o \in {"Ok", "Skipped", "Rejected"}, c \in BOOLEAN : Slot(o, c)
+MNext == \E o \in {"Ok", "Skipped", "Rejected"}, c \in BOOLEAN, h \in BOOLEAN : Slot(o, c, h)
 MSpec == MInit /\ [][MNext]_mvars
 
 (* a run that is not rejected consumes every slot; a rejected run stopped at a visible fault *)
